@@ -22,6 +22,7 @@
   Core Lean only, imports nothing outside RbModel (the driver links this file).
 -/
 import RbModel.Gen.Norm
+import RbModel.Gen.Buf
 
 namespace RbModel.Norm
 
@@ -100,7 +101,7 @@ structure Hangul where
 def composeHangul (H : Hangul) (a b : Nat) : Option Nat :=
   if H.lBase ≤ a ∧ a < H.lBase + H.lCount ∧ H.vBase ≤ b ∧ b < H.vBase + H.vCount then
     some (H.sBase + (a - H.lBase) * H.nCount + (b - H.vBase) * H.tCount)
-  else if H.sBase ≤ a ∧ a ≤ H.sBase + H.sCount - H.tCount ∧ H.tBase ≤ b ∧ b < H.tBase + H.tCount
+  else if H.sBase ≤ a ∧ a ≤ H.sBase + H.sCount - H.tCount ∧ H.tBase < b ∧ b < H.tBase + H.tCount
       ∧ (a - H.sBase) % H.tCount = 0 then
     some (a + (b - H.tBase))
   else none
@@ -184,17 +185,30 @@ def lastOf : Info → List Info → Info
   | x, [] => x
   | _, y :: ys => lastOf y ys
 
+/-- the "extend start" loop of `merge_clusters_impl` with `idx = 0`:
+    `while idx < start && info[start-1].cluster == info[start].cluster { start -= 1 }`;
+    `pre` = `info[0..start]`, `c0` = `info[start].cluster`.  The records reached get `cluster`. -/
+def extendStart (K : Consts) (pre : List Info) (c0 cluster : Nat) : List Info :=
+  (pre.reverse.dropWhile (fun i => i.cluster == c0)).reverse ++
+    ((pre.reverse.takeWhile (fun i => i.cluster == c0)).reverse).map (setCluster K · cluster)
+
 /-- src: buffer.rs::hb_buffer_t::merge_clusters_impl, for the call made by `sort` (no output buffer:
-    `idx = 0`, `out_len = 0`): `range` = `info[start..end]` (at least two records), `tl` = `info[end..len]`.
-    Returns the new `range` and `tl`.  The "extend start" loop of the Rust code never runs (its guard is
-    `end < start`, defect D4), and the out-buffer continuation finds `out_len = 0`. -/
-def mergeClusters (K : Consts) (x : Info) (xs : List Info) (tl : List Info) : List Info × List Info :=
+    `idx = 0`, `out_len = 0`): `pre` = `info[0..start]`, `x :: xs` = `info[start..end]` (at least two
+    records), `tl` = `info[end..len]`.  Returns the new three parts.
+    The guard of the "extend start" loop is taken from the source through `Gen.Buf.extendStartGuard`
+    (0: `end < start`, never true — defect D4; 1: `self.idx < start`, HarfBuzz).  The out-buffer
+    continuation finds `out_len = 0`. -/
+def mergeClusters (K : Consts) (pre : List Info) (x : Info) (xs : List Info) (tl : List Info) :
+    List Info × List Info × List Info :=
   let cluster := minCluster x.cluster xs
   let last := lastOf x xs
   -- Extend end
   let ext := if cluster ≠ last.cluster then tl.takeWhile (fun i => i.cluster == last.cluster) else []
   let rest := tl.drop ext.length
-  ((x :: xs).map (setCluster K · cluster), ext.map (setCluster K · cluster) ++ rest)
+  -- Extend start
+  let pre' := if cluster ≠ x.cluster ∧ Gen.Buf.extendStartGuard = 1 then extendStart K pre x.cluster cluster
+    else pre
+  (pre', (x :: xs).map (setCluster K · cluster), ext.map (setCluster K · cluster) ++ rest)
 
 /-- `info[j..=i]` after `t = info[i]; shift info[j..i] up by one; info[j] = t` -/
 def rotateRight1 (r : List Info) : List Info :=
@@ -203,29 +217,31 @@ def rotateRight1 (r : List Info) : List Info :=
   | none => r
 
 /-- one iteration of the outer loop of `buffer.rs::hb_buffer_t::sort` with
-    `cmp = compare_combining_class` (`a > b` on modified ccc): `seg` = `info[start..i]` (already sorted),
-    `x` = `info[i]`, `tl` = `info[i+1..len]`.  Returns the new `info[start..i+1]` and `info[i+1..len]`. -/
-def sortStep (K : Consts) (seg : List Info) (x : Info) (tl : List Info) : List Info × List Info :=
+    `cmp = compare_combining_class` (`a > b` on modified ccc): `pre` = `info[0..start]`,
+    `seg` = `info[start..i]` (already sorted), `x` = `info[i]`, `tl` = `info[i+1..len]`.
+    Returns the new `info[0..start]`, `info[start..i+1]` and `info[i+1..len]`. -/
+def sortStep (K : Consts) (pre seg : List Info) (x : Info) (tl : List Info) :
+    List Info × List Info × List Info :=
   -- j = i; while j > start && cmp(info[j-1], info[i]) { j -= 1 }
   let moved := (seg.reverse.takeWhile (fun y => y.mcc > x.mcc)).reverse     -- info[j..i]
   let keep := (seg.reverse.dropWhile (fun y => y.mcc > x.mcc)).reverse      -- info[start..j]
   match moved with
-  | [] => (seg ++ [x], tl)                -- i == j: continue
+  | [] => (pre, seg ++ [x], tl)           -- i == j: continue
   | m :: ms =>
     -- self.merge_clusters(j, i + 1)
-    let r := mergeClusters K m (ms ++ [x]) tl
+    let r := mergeClusters K (pre ++ keep) m (ms ++ [x]) tl
     -- move item i to occupy place for item j, shift what's in between
-    (keep ++ rotateRight1 r.1, r.2)
+    (r.1.take pre.length, r.1.drop pre.length ++ rotateRight1 r.2.1, r.2.2)
 
 /-- src: buffer.rs::hb_buffer_t::sort(start, end, compare_combining_class):
-    `seg` = the sorted prefix `info[start..i]`, `n` = `end - i`, `tl` = `info[i..len]`.
-    Result: `info[start..len]`. -/
-def sortGo (K : Consts) : List Info → Nat → List Info → List Info
-  | seg, 0, tl => seg ++ tl
-  | seg, _ + 1, [] => seg
-  | seg, n + 1, x :: tl =>
-    let r := sortStep K seg x tl
-    sortGo K r.1 n r.2
+    `pre` = `info[0..start]`, `seg` = the sorted prefix `info[start..i]`, `n` = `end - i`,
+    `tl` = `info[i..len]`.  Result: the whole `info[0..len]`. -/
+def sortGo (K : Consts) : List Info → List Info → Nat → List Info → List Info
+  | pre, seg, 0, tl => pre ++ seg ++ tl
+  | pre, seg, _ + 1, [] => pre ++ seg
+  | pre, seg, n + 1, x :: tl =>
+    let r := sortStep K pre seg x tl
+    sortGo K r.1 r.2.1 n r.2.2
 
 /-! ## ot_shape_normalize.rs -/
 
@@ -369,22 +385,29 @@ def round1 (U : UData) (F : Font) (K : Consts) (fuel : Nat) (might always : Bool
           | some (o3, flags, allSimple) => some (o1 ++ o2 ++ o3, flags, allSimple)
 termination_by inp => inp.length
 
-theorem length_mergeClusters (K : Consts) (x : Info) (xs tl : List Info) :
-    (mergeClusters K x xs tl).2.length = tl.length := by
-  simp only [mergeClusters]
-  split
-  · simp only [List.length_append, List.length_map, List.length_drop]
-    have := length_takeWhile_le (fun i : Info => i.cluster == (lastOf x xs).cluster) tl
-    omega
-  · simp
+theorem length_extendStart (K : Consts) (pre : List Info) (c0 cluster : Nat) :
+    (extendStart K pre c0 cluster).length = pre.length := by
+  unfold extendStart
+  have h := congrArg List.length (List.takeWhile_append_dropWhile (p := fun i : Info => i.cluster == c0)
+    (l := pre.reverse))
+  simp only [List.length_append, List.length_reverse] at h
+  simp only [List.length_append, List.length_reverse, List.length_map]
+  omega
 
-theorem length_sortStep (K : Consts) (seg : List Info) (x : Info) (tl : List Info) :
-    (sortStep K seg x tl).2.length = tl.length := by
-  unfold sortStep
-  simp only
-  split
-  · rfl
-  · simp [length_mergeClusters]
+theorem length_mergeClusters (K : Consts) (pre : List Info) (x : Info) (xs tl : List Info) :
+    (mergeClusters K pre x xs tl).1.length = pre.length ∧
+    (mergeClusters K pre x xs tl).2.1.length = xs.length + 1 ∧
+    (mergeClusters K pre x xs tl).2.2.length = tl.length := by
+  simp only [mergeClusters]
+  refine ⟨?_, by simp, ?_⟩
+  · split
+    · exact length_extendStart _ _ _ _
+    · rfl
+  · split
+    · simp only [List.length_append, List.length_map, List.length_drop]
+      have := length_takeWhile_le (fun i : Info => i.cluster == (lastOf x xs).cluster) tl
+      omega
+    · simp
 
 theorem length_rotateRight1 (r : List Info) : (rotateRight1 r).length = r.length := by
   unfold rotateRight1
@@ -396,8 +419,10 @@ theorem length_rotateRight1 (r : List Info) : (rotateRight1 r).length = r.length
     have := List.length_pos_iff.mpr hne
     omega
 
-theorem length_sortStep1 (K : Consts) (seg : List Info) (x : Info) (tl : List Info) :
-    (sortStep K seg x tl).1.length = seg.length + 1 := by
+theorem length_sortStep (K : Consts) (pre seg : List Info) (x : Info) (tl : List Info) :
+    (sortStep K pre seg x tl).1.length = pre.length ∧
+    (sortStep K pre seg x tl).2.1.length = seg.length + 1 ∧
+    (sortStep K pre seg x tl).2.2.length = tl.length := by
   unfold sortStep
   simp only
   split
@@ -408,34 +433,38 @@ theorem length_sortStep1 (K : Consts) (seg : List Info) (x : Info) (tl : List In
     have hlen := congrArg List.length hsplit
     have hm' := congrArg List.length hm
     simp only [List.length_reverse, List.length_append, List.length_cons] at hlen hm'
-    simp only [List.length_append, List.length_reverse, length_rotateRight1, mergeClusters,
-      List.length_map, List.length_cons, List.length_nil]
-    omega
+    have hmc := length_mergeClusters K
+      (pre ++ (seg.reverse.dropWhile (fun y => y.mcc > x.mcc)).reverse) m (ms ++ [x]) tl
+    simp only [List.length_append, List.length_reverse, List.length_cons, List.length_nil] at hmc
+    refine ⟨?_, ?_, hmc.2.2⟩
+    · simp only [List.length_take, hmc.1]; omega
+    · simp only [List.length_append, List.length_drop, length_rotateRight1, hmc.1, hmc.2.1]; omega
 
-theorem length_sortGo (K : Consts) (seg : List Info) (n : Nat) (tl : List Info) (h : n ≤ tl.length) :
-    (sortGo K seg n tl).length = seg.length + tl.length := by
-  induction n generalizing seg tl with
-  | zero => simp [sortGo]
+theorem length_sortGo (K : Consts) (pre seg : List Info) (n : Nat) (tl : List Info) (h : n ≤ tl.length) :
+    (sortGo K pre seg n tl).length = pre.length + seg.length + tl.length := by
+  induction n generalizing pre seg tl with
+  | zero => simp [sortGo]; omega
   | succ n ih =>
     cases tl with
     | nil => simp at h
     | cons x tl =>
       simp only [sortGo]
+      have hs := length_sortStep K pre seg x tl
       rw [ih]
-      · rw [length_sortStep1, length_sortStep]; simp; omega
-      · rw [length_sortStep]; simpa using h
+      · rw [hs.1, hs.2.1, hs.2.2]; simp; omega
+      · rw [hs.2.2]; simpa using h
 
 /-- `buffer.sort(i, end, compare_combining_class)` guarded by `end - i <= MAX_COMBINING_MARKS`;
-    `l` = `info[i..count]`, `n` = `end - i` -/
-def sortRun (K : Consts) (n : Nat) (l : List Info) : List Info :=
-  if n ≤ K.maxMarks then sortGo K [] n l else l
+    `pre` = `info[0..i]`, `l` = `info[i..count]`, `n` = `end - i`; result: the whole buffer -/
+def sortRun (K : Consts) (pre : List Info) (n : Nat) (l : List Info) : List Info :=
+  if n ≤ K.maxMarks then sortGo K pre [] n l else pre ++ l
 
-theorem length_sortRun (K : Consts) (n : Nat) (l : List Info) (h : n ≤ l.length) :
-    (sortRun K n l).length = l.length := by
+theorem length_sortRun (K : Consts) (pre : List Info) (n : Nat) (l : List Info) (h : n ≤ l.length) :
+    (sortRun K pre n l).length = pre.length + l.length := by
   unfold sortRun
   split
-  · rw [length_sortGo K [] n l h]; simp
-  · rfl
+  · rw [length_sortGo K pre [] n l h]; simp
+  · simp
 
 /-- length of the run of records with non-zero modified ccc starting at `x` (`end - i`) -/
 def runLen (r : List Info) : Nat := 1 + (r.takeWhile (fun i => i.mcc ≠ 0)).length
@@ -444,20 +473,22 @@ theorem runLen_le (x : Info) (r : List Info) : runLen r ≤ (x :: r).length := b
   have := length_takeWhile_le (fun i : Info => i.mcc ≠ 0) r
   simp only [runLen, List.length_cons]; omega
 
-/-- src: _hb_ot_shape_normalize, "Second round, reorder (inplace)" over `info[i..count]`:
-    records with modified ccc 0 are skipped; a maximal run of non-zero ones is sorted when it has at most
-    `MAX_COMBINING_MARKS` records (`reorder_marks` is `None` for the default shaper); then `i = end + 1`. -/
-def round2 (K : Consts) : List Info → List Info
-  | [] => []
-  | x :: r =>
-    if x.mcc = 0 then x :: round2 K r
+/-- src: _hb_ot_shape_normalize, "Second round, reorder (inplace)": `pre` = `info[0..i]`, the second
+    argument is `info[i..count]`; result: the whole buffer.
+    Records with modified ccc 0 are skipped; a maximal run of non-zero ones is sorted when it has at most
+    `MAX_COMBINING_MARKS` records (`reorder_marks` is `None` for the default shaper; the sort may relabel
+    clusters before and after the run); then `i = end + 1`. -/
+def round2 (K : Consts) : List Info → List Info → List Info
+  | pre, [] => pre
+  | pre, x :: r =>
+    if x.mcc = 0 then round2 K (pre ++ [x]) r
     else
-      (sortRun K (runLen r) (x :: r)).take (runLen r + 1) ++
-        round2 K ((sortRun K (runLen r) (x :: r)).drop (runLen r + 1))
-termination_by l => l.length
+      round2 K ((sortRun K pre (runLen r) (x :: r)).take (pre.length + runLen r + 1))
+        ((sortRun K pre (runLen r) (x :: r)).drop (pre.length + runLen r + 1))
+termination_by _ l => l.length
 decreasing_by
   · simp
-  · rw [List.length_drop, length_sortRun K _ _ (runLen_le x r)]
+  · rw [List.length_drop, length_sortRun K _ _ _ (runLen_le x r)]
     simp only [List.length_cons]; omega
 
 /-- src: hb_glyph_info_t::unhide -/
@@ -550,7 +581,7 @@ def normalize (U : UData) (F : Font) (K : Consts) (fuel : Nat) (pref : Nat) (buf
     match round1 U F K fuel might always buf flags true with
     | none => none
     | some (l, flags, allSimple) =>
-      let l := if !allSimple then round2 K l else l
+      let l := if !allSimple then round2 K [] l else l
       let l := if flags &&& K.flagCGJ ≠ 0 then cgjRound l else l
       if !allSimple && (mode == 2 || mode == 3) then some (round3 U F K l flags)
       else some (l, flags)
